@@ -21,7 +21,9 @@ RULE = ('(i) arbitrary byte strings (Hypothesis binary, boundary-biased) written
         'code, ignore-flag frames of unknown type, METADATA_PUSH on a stream, wrong id parity) interleaved with healthy '
         'interactions and followed by a probe request-response on a fresh id; the same hostile messages are also played by '
         'hand to a real server / client that sits on one of the repository\'s websocket transports (stand-in websocket '
-        'object), followed by a probe in each direction; (iii) the complete matrix of application '
+        'object), followed by a probe in each direction; a lease-honouring client with 1-4 requests waiting is sent LEASE frames of every '
+        'kind (fewer requests than are waiting, none, zero time-to-live, maximal values) and finally one that covers '
+        'everything: processing terminates and every request is sent; (iii) the complete matrix of application '
         'faults: every RequestHandler entry point raising, returned future failing, a generator factory failing before there is a generator, publisher raising in subscribe / '
         'request, generator / async generator / observable failing at element k, subscriber callbacks raising, on_setup '
         'raising - x requester side x framing x fragmentation - each beside a healthy bystander stream and followed by a '
@@ -572,6 +574,54 @@ def glue_prop(case):
     return out
 
 
+# ------------------------------------------------- (ii'') LEASE frames a peer can send to an endpoint that is waiting for one
+
+@st.composite
+def lease_cases(draw):
+    """A lease-honouring client with 1-4 requests waiting for a lease; the peer sends LEASE frames of every kind - granting
+    fewer requests than are waiting, none at all, a zero time-to-live, huge values - and finally one that covers everything."""
+    leases = draw(st.lists(st.tuples(st.sampled_from([0, 0, 1, 2, 0x7FFFFFFF]), st.sampled_from([0, 1, 100000, 0x7FFFFFFF])),
+                           min_size=1, max_size=4))
+    return {'lease_hostile': True, 'parked': draw(st.lists(st.sampled_from(['rr', 'fnf', 'st']), min_size=1, max_size=4)),
+            'leases': [list(l) for l in leases], 'msg': draw(st.booleans()), 'burst': draw(st.booleans())}
+
+
+def lease_prop(case):
+    inter = []
+    for k in case['parked']:
+        spec = {'k': k, 'side': 'c', 'req': [5, 1]}
+        if k == 'rr':
+            spec['resp'] = {'mode': 'manual', 'p': [3, 0]}
+        if k == 'st':
+            spec['src'] = {'kind': 'manual', 'els': [], 'end': 'sep'}
+            spec['sub'] = {'n0': 3, 'refill': 0}
+        inter.append(spec)
+    ops = [['tick', 3], ['settle']] + [['start']] * len(inter) + [['tick', 2]]
+    for n, ttl in case['leases']:
+        ops.append(['rawframe', {'type': 'LEASE', 'sid': 0, 'ttl': ttl, 'count': n, 'metadata': None}])
+        if not case['burst']:
+            ops.append(['tick', 2])
+    ops += [['tick', 3], ['rawframe', {'type': 'LEASE', 'sid': 0, 'ttl': 100000000, 'count': 1000, 'metadata': None}], ['tick', 4], ['settle']]
+    prog = {'cfg': {'msg': case['msg'], 'frag': [None, None], 'rbuf': [1024, 1024], 'raw': 's', 'lease': {'queue': 0}},
+            'inter': inter, 'ops': ops, 'heal': False}
+    tr, wd = run_guarded(prog)
+    info['nt'] = True
+    info['classes'] = ['part=lease_frames', 'waiting=%d' % len(inter)]
+    if wd is not None:
+        return [wd]
+    out = []
+    fin = tr.final['c']
+    if fin['sender_done'] or fin['receiver_done']:
+        out.append(viol('endpoint_task_died', 'C12:task_died:%s' % ('sender' if fin['sender_done'] else 'receiver'), side='c'))
+    for err in tr.loop_errors:
+        out.append(viol('exception_reached_loop_handler', 'C12:loop_error:%s' % err.get('type'), **err))
+    sent = [e for e in tr.world.wire.get('c', []) if e['f']['type'] in monitors.REQ_TYPES]
+    if len(sent) != len(inter):
+        out.append(viol('request_never_released', 'C12:lease_frames:requests_sent', sent=len(sent), waiting=len(inter),
+                        leases=case['leases']))
+    return out
+
+
 def prop_hostile(program):
     vs, tr = judge_hostile(program)
     info['nt'] = True
@@ -621,7 +671,9 @@ def hyp_shard(tier, seed, n, part):
     common.use_repo()
     stats = common.Stats()
     known = common.Known(PID)
-    if part == 'glue':
+    if part == 'lease':
+        common.hyp_search(stats, known, lease_cases(), lease_prop, n, seed, classify=classify, shrink=True)
+    elif part == 'glue':
         common.hyp_search(stats, known, glue_cases(), glue_prop, n, seed, classify=classify, shrink=True)
     elif part == 'frames':
         common.hyp_search(stats, known, hostile_programs(), prop_hostile, n, seed, classify=classify, shrink=True)
@@ -640,6 +692,8 @@ def run(tier, seed):
     nglue = 480 if tier == 'quick' else 16000
     for s in common.shard_seeds(seed, 4):
         jobs.append(('hyp_shard', dict(tier=tier, seed=s + 91, n=nglue // 4, part='glue')))
+    for s in common.shard_seeds(seed, 2):
+        jobs.append(('hyp_shard', dict(tier=tier, seed=s + 97, n=(200 if tier == 'quick' else 6000) // 2, part='lease')))
     stats = common.run_shards_multi(__name__, jobs)
     if tier == 'thorough':
         from harness import fuzz
@@ -652,6 +706,8 @@ def replay(path):
     case = common.load_replay(path)
     if case.get('glue_hostile'):
         return common.report_replay(PID, path, glue_prop(case))
+    if case.get('lease_hostile'):
+        return common.report_replay(PID, path, lease_prop(case))
     if 'fuzz_input' in case:
         return common.report_replay(PID, path, fuzz_oracle(case['fuzz_input']))
     if 'fault' in case:
